@@ -113,8 +113,36 @@ func genRolesMatrix(g *Gen, n int) {
 					}
 				}
 			}
+			// and one submitter who only resembles the holder
+			if la := g.lookalikes(holder[t.role]); len(la) > 0 {
+				g.stats.Mut("unauthorised-lookalike")
+				if g.tx(t.ty, la[g.r.Intn(len(la))], t.rest(s), "") == "ok" {
+					g.stats.Note("UNAUTHORISED-OK")
+					setup()
+				}
+			}
 		}
 	}
+}
+
+// submitters that resemble a role holder without being it: the holder's bytes extended or truncated (accounts of other
+// lengths are valid), the upper-case spelling of its bech32 string, the same bytes under another prefix
+func (g *Gen) lookalikes(holder string) []string {
+	_, bz, err := decodeBech32(holder)
+	if err != nil || len(bz) == 0 {
+		return nil
+	}
+	out := []string{
+		mustBech32("cosmos", append(append([]byte{}, bz...), g.r.Bytes(12)...)),
+		mustBech32("cosmos", append(append([]byte{}, bz...), 0)),
+		mustBech32("cosmos", append(g.r.Bytes(12), bz...)),
+		upper(holder),
+		mustBech32("noble", bz),
+	}
+	if len(bz) > 1 {
+		out = append(out, mustBech32("cosmos", bz[:len(bz)-1]))
+	}
+	return out
 }
 
 var badAddrs = []string{"", "garbage", "cosmos1qqqqqq", "noble1qv9pzxqlyckngw6zf9g9whn9d3eh4qvg3u3gv759",
@@ -262,6 +290,11 @@ func genAdminRandom(g *Gen, n int) {
 			from := map[string]string{"owner": s.owner, "attmgr": s.attmgr, "pauser": s.pauser, "tokctl": s.tokctl, "pending": s.A(1)}[t.role]
 			if g.r.Chance(1, 5) {
 				from = s.A(g.r.Intn(4))
+			} else if g.r.Chance(1, 8) {
+				if la := g.lookalikes(from); len(la) > 0 {
+					from = la[g.r.Intn(len(la))]
+					g.stats.Mut("lookalike-submitter")
+				}
 			}
 			g.tx(t.ty, from, g.randAdminArgs(s, t), "")
 		}
